@@ -375,3 +375,37 @@ Proof.
     + apply Nat.leb_le. exact (proj1 (conns_per_instance c mi n h st Hc Hmi Hall Hrun)).
   - apply Nat.eqb_eq. exact (conns_no_keepalive _ _ _ _ Hrun).
 Qed.
+
+(* ---------- scripted histories ---------- *)
+Lemma run_log_length : forall cl ka mi h st st', t_run cl ka mi st h = Some st' ->
+  length (t_log st') = (length (t_log st) + requests_of h)%nat.
+Proof.
+  intros cl ka mi. induction h as [|e r IH]; intros st st'; cbn.
+  - intro H; inversion H; subst. unfold requests_of. cbn. lia.
+  - destruct (t_step cl ka mi st e) as [st1|] eqn:E; [|discriminate]. intro H. rewrite (IH _ _ H).
+    unfold requests_of. destruct e as [j|j]; cbn in E |- *.
+    + destruct (busy_find j (t_busy st)); [discriminate|].
+      destruct (t_idle st (cl j)); inversion E; subst; cbn; lia.
+    + destruct (busy_find j (t_busy st)); [|discriminate]. inversion E; subst; cbn; lia.
+Qed.
+
+Lemma log_one_conn_true : forall l,
+  (forall i x y, In (i, x) l -> In (i, y) l -> x = y) -> log_one_conn l = true.
+Proof.
+  intros l H. unfold log_one_conn. apply forallb_forall. intros [i x] Hp. apply forallb_forall. intros [j y] Hq. cbn.
+  destruct (Nat.eqb_spec i j) as [->|Hne]; cbn; [|reflexivity]. apply Nat.eqb_eq. exact (H j x y Hp Hq).
+Qed.
+
+Lemma hist_ok_sound : forall c ka mi n h st,
+  (0 < mi)%nat ->
+  Forall (fun e => (ev_inst e < n)%nat) h ->
+  t_run (client_of (prepare_pool c)) ka mi t_init h = Some st ->
+  hist_ok ka (sc_enabled c) n (requests_of h) (t_dials st) (rev (t_log st)) = true.
+Proof.
+  intros c ka mi n h st Hmi Hall Hrun. unfold hist_ok.
+  rewrite (conn_ok_sound c ka mi n h st Hmi Hall Hrun). rewrite rev_length.
+  rewrite (run_log_length _ _ _ _ _ _ Hrun). cbn [t_init t_log length Nat.add]. rewrite Nat.eqb_refl. cbn [andb].
+  destruct ka; [|reflexivity]. destruct (sc_enabled c) eqn:Hc; [reflexivity|]. cbn [andb negb].
+  apply log_one_conn_true. intros i x y Hx Hy. apply in_rev in Hx. apply in_rev in Hy.
+  exact (proj2 (conns_per_instance c mi n h st Hc Hmi Hall Hrun) i x y Hx Hy).
+Qed.
